@@ -43,10 +43,9 @@ def build(repo, it, st, use_ctl, obliq_on):
         '_global_love_by_orderl': None, '_need_to_collapse_modes': False, '_new_tidal_frequencies': False, '_eccentricity_truncation_lvl': 2, '_max_tidal_order_lvl': 2, '_use_obliquity_tides': obliq_on,
         '_multiply_modes_by_sign': True, '_eccentricity_results': None, '_obliquity_results': None, 'calculate_modes_func': fm[0], 'collapse_modes_func': fm[1], 'eccentricity_func': fm[2], 'obliquity_func': fm[3],
         '_tidal_inputs': None, '_ctl_complex_love_by_unique_freq': None, '_cpl_complex_love_by_unique_freq': None, '_use_ctl': use_ctl, '_ctl_calc_method': None, '_ctl_calc_input_getter': None, 'model': 'global_approx'})
-    if use_ctl:
-        mc = repo.by_path('TidalPy/tides/ctl_funcs/ctl_funcs.py')
-        s.tides.attrs['_ctl_calc_method'] = FuncRef(mc, need_func(mc, 'linear_dt'))
-        s.tides.attrs['_ctl_calc_input_getter'] = (lambda t=s.tides: (t.attrs['_fixed_dt'],))
+    # (configuration-dependent state is set up by the class's own reinit, see c13.build)
+    s.tides.attrs['config'] = {'use_ctl': use_ctl, 'fixed_q': st['Q'], 'static_k2': st['k2'], 'fixed_dt': st['dt'], 'ctl_calc_method': 'linear_simple', 'eccentricity_truncation_lvl': 2,
+                               'max_tidal_order_l': 2, 'obliquity_tides_on': obliq_on, 'multiply_modes_by_sign': True}
 
     def world(name, mass, tides, spin, obl):
         return Obj(cls=Wc, name=name, attrs={
@@ -65,6 +64,7 @@ def build(repo, it, st, use_ctl, obliq_on):
     s.host.attrs['orbit'] = s.orbit; s.moon.attrs['orbit'] = s.orbit
     for o in (s.tides, s.host, s.moon, s.orbit):
         constructor_defaults(it, o)
+    call(it, s.tides, 'reinit', initial_init=True)
     s.world = s.host
     return s
 
